@@ -183,7 +183,7 @@ func c03Parser(c *Ctx) {
 		r.Unknown("C03.L1", "level-flow", "", "no function of the profile parser is called with a level word")
 	}
 	for _, e := range levelParsers {
-		reaches := paramReachesField(p, "internal/parser/profile", e.fn.Name(), e.idx, "TopLevelExpression", "Level", 4)
+		reaches := paramReachesFieldSym(p, "internal/parser/profile", e.fn.Name(), e.idx, "TopLevelExpression", "Level")
 		fn := p.Func("internal/parser/profile", e.fn.Name())
 		if fn == nil {
 			r.Unknown("C03.L1", "level-flow", "", "the level parser "+e.fn.Name()+" has no SSA body; flow not checked")
@@ -200,63 +200,6 @@ func isLevelWord(s string) bool {
 		}
 	}
 	return false
-}
-
-// paramReachesField: parameter idx of pkg.fn is passed, unchanged, through direct calls (depth-limited) into a
-// composite literal or assignment of field `field` of struct type `typ`.
-func paramReachesField(p *Prog, rel, fn string, idx int, typ, field string, depth int) bool {
-	fd, pk := p.FuncDecl(rel, fn)
-	if fd == nil || depth == 0 {
-		return false
-	}
-	info := pk.TypesInfo
-	var prm types.Object
-	n := 0
-	for _, f := range fd.Type.Params.List {
-		for _, name := range f.Names {
-			if n == idx {
-				prm = info.Defs[name]
-			}
-			n++
-		}
-	}
-	if prm == nil {
-		return false
-	}
-	ok := false
-	ast.Inspect(fd.Body, func(node ast.Node) bool {
-		switch x := node.(type) {
-		case *ast.CompositeLit:
-			if tv, has := info.Types[x]; has {
-				if nt := namedOf(tv.Type); nt != nil && nt.Obj().Name() == typ {
-					if v := compositeField(x, field); v != nil {
-						if id, isID := ast.Unparen(v).(*ast.Ident); isID && info.Uses[id] == prm {
-							ok = true
-						}
-					}
-				}
-			}
-		case *ast.CallExpr:
-			callee, isFn := calleeOf(info, x).(*types.Func)
-			if !isFn || callee.Pkg() == nil || !strings.HasPrefix(callee.Pkg().Path(), ModulePath) {
-				return true
-			}
-			for i, a := range x.Args {
-				if id, isID := ast.Unparen(a).(*ast.Ident); isID && info.Uses[id] == prm {
-					crel := strings.TrimPrefix(strings.TrimPrefix(callee.Pkg().Path(), ModulePath), "/")
-					name := callee.Name()
-					if rt := recvTypeName(callee); rt != "" {
-						name = rt + "." + name
-					}
-					if paramReachesField(p, crel, name, i, typ, field, depth-1) {
-						ok = true
-					}
-				}
-			}
-		}
-		return true
-	})
-	return ok
 }
 
 // ---- L2
@@ -918,4 +861,44 @@ func fromFreshName(pk *packages.Package, id *ast.Ident) bool {
 		})
 	}
 	return found
+}
+
+// paramReachesFieldSym: evaluated from pkg.fn with its helpers interpreted (E-sym), every struct literal of type typ that
+// is built has its field `field` equal to parameter idx of fn itself — however the value travels there (forwarded
+// parameters, a parameter object, locals) — and at least one such literal is built.
+func paramReachesFieldSym(p *Prog, rel, fn string, idx int, typ, field string) bool {
+	fd, pk := p.FuncDecl(rel, fn)
+	if fd == nil || fd.Body == nil {
+		return false
+	}
+	var prm types.Object
+	n := 0
+	for _, f := range fd.Type.Params.List {
+		for _, name := range f.Names {
+			if n == idx {
+				prm = pk.TypesInfo.Defs[name]
+			}
+			n++
+		}
+	}
+	if prm == nil {
+		return false
+	}
+	built, ok := 0, true
+	proto := &symWalker{Inline: samePkgInline(pk)}
+	proto.OnStruct = func(w *symWalker, lit *ast.CompositeLit, val *Sym) {
+		if val.Type == nil || typeName(val.Type) != typ {
+			return
+		}
+		v, has := val.Fields[field]
+		if !has {
+			return
+		}
+		built++
+		if v == nil || v.K != symVar || v.Obj != prm {
+			ok = false
+		}
+	}
+	p.SymWalk(pk, fd, proto, nil)
+	return ok && built > 0
 }
